@@ -4824,7 +4824,11 @@ class ParseCtx:
                 DTAG.SOURCE_LINE, lark_node_for_error.meta.line,
                 DTAG.SOURCE_COLUMN, lark_node_for_error.meta.column
         )
-        node = ProgramData.imbue(self._parse_stmt_seq(macro.parse_tree), DTAG.PARENT, macro)
+        node = self._parse_stmt_seq(macro.parse_tree)
+        if node is None:
+            # a macro without statements expands to nothing
+            node = ActionNode()
+        node = ProgramData.imbue(node, DTAG.PARENT, macro)
         del self.bound_argument_stack[-1]
         self.active_macro = self.active_macro.parent
         return node
